@@ -92,6 +92,10 @@ def adversarial(rng, doc):
         "self-recursive": "rule x {\n x\n}",
         "mutually-recursive": "rule x {\n y\n}\nrule y when x {\n %s exists\n}" % k,
         "recursive-via-when": "rule x when x {\n %s exists\n}" % k,
+        "dup-name-self-cycle": "rule x when %s !exists {\n zz exists\n}\nrule x when %s exists {\n x\n}\nrule x when zz exists {\n x\n}\nrule u {\n x\n}" % (k, k),
+        "dup-name-mutual-cycle": ("rule y when %s !exists {\n zz exists\n}\nrule y when %s exists {\n x\n}\n"
+                                  "rule x when %s !exists {\n zz exists\n}\nrule x when %s exists {\n y\n}\nrule u when x {\n y\n}") % (k, k, k, k),
+        "dup-name-cycle-via-call": "rule p(a) {\n x\n %%a exists\n}\nrule x when zz exists {\n %s exists\n}\nrule x {\n p(%s)\n}" % (k, k),
         "wrong-arity": "rule p(a, b) { %%a == %%b }\nrule x { p(%s) }" % k,
         "unknown-param-rule": "rule x { nosuch(%s) }" % k,
         "unknown-variable": "rule x { %%nosuch == 1 }",
@@ -390,7 +394,7 @@ def main(tier, seed):
     res.extra["distinct_parse_error_positions"] = len(pos)
     shapes = [k for k in res.counts if k.startswith("shape:")]
     mr, sp = res.counts["mutated_rules"], res.counts["mutated_rules_still_parse"]
-    floor = {"cases": (res.cases, 5000), "adversarial_shapes": (len(shapes), 27), "mutated_rules_still_parsing_percent": (int(100 * sp / max(1, mr)), 5),
+    floor = {"cases": (res.cases, 5000), "adversarial_shapes": (len(shapes), 30), "mutated_rules_still_parsing_percent": (int(100 * sp / max(1, mr)), 5),
              "distinct_parse_error_positions": (len(pos), 100), "channels": (len(res.extra.get("channels", set())), 15), "memcheck_jobs": (njobs, 40)}
     return core.finish("C08", tier, seed, res, t0,
                        rule="(1) grammar-generated rule texts with 1-3 byte/token mutations x documents; (2) 28 adversarial grammatical shapes + generated programs with "
